@@ -99,15 +99,16 @@ Definition m_position (c : call) (v : sfv) : res :=
 (* ---- count.go / count-if.go ------------------------------------------------------------------ *)
 Fixpoint count_loop (p : Z -> bool) (l : list Z) (n : Z) : Z :=
   match l with [] => n | x :: t => count_loop p t (if p x then n + 1 else n) end.
-(* inString normalises the end with len(seq) of the STRING (bytes) and then indexes the rune slice *)
+(* inList / inString: if sfv.end < 0 || len < sfv.end { sfv.end = len } with len = the number of
+   elements (runes for a string); then the index loop start .. end-1 in either direction (no
+   iteration when end <= start) *)
 Definition m_count (c : call) (v : sfv) : res :=
   match c_seq c with
   | SNil => RInt 0
   | s => let l := elems s in
-         let e := norm_end (go_len s) (v_end v) in
-         if ((length l <? e) && (v_start v <? e))%nat then RErr EFault
-         else let w := slice (v_start v) e l in
-              RInt (count_loop (m_match c) (if v_from_end v then rev w else w) 0)
+         let e := norm_end (length l) (v_end v) in
+         let w := slice (v_start v) e l in
+         RInt (count_loop (m_match c) (if v_from_end v then rev w else w) 0)
   end.
 
 (* ---- in-place reversal loops ------------------------------------------------------------------------ *)
